@@ -35,4 +35,22 @@ def sameSegP (P : Nat → Bool) (i k : Nat) : Prop :=
 /-- Ordinal position of the segment of atom `i`: the number of segment starts among atoms `1..i`. -/
 def posP (P : Nat → Bool) (i : Nat) : Nat := (List.range' 1 i).countP P
 
+/-- The two segmentations of the code. -/
+inductive Kind where
+  | residue | chain
+  deriving DecidableEq, Repr
+
+/-- boundary relation (previous atom, current atom) -/
+def Kind.boundary : Kind → Atom → Atom → Bool
+  | .residue => resBoundary
+  | .chain => chainBoundary
+
+/-- `get_residue_starts` / `get_chain_starts` -/
+def Kind.starts : Kind → List Atom → Bool → List Nat
+  | .residue => residueStarts
+  | .chain => chainStarts
+
+/-- "atom `j` starts a segment", recomputed per atom -/
+abbrev Kind.isStart (k : Kind) (xs : List Atom) (j : Nat) : Bool := C17.isStart k.boundary xs j
+
 end BiotiteModel.C17
